@@ -1530,6 +1530,7 @@ func TestVerif_C02(t *testing.T) {
 		"concurrent issuing (16 goroutines of real logins of different users, 64 goroutines x SaveSession of distinct sessions), every issued cookie presented unmodified must decode to its own user in all six fields, race-detector reports in session / encryption code are violations; " +
 		"known-answer check of the cookie cipher (independent AES-CFB decryption with the known secret must give the LZ4/msgpack plaintext); no two cookie payloads share >= 24 equal ciphertext bytes at equal offsets; " +
 		"login with a planted cookie (Redis store; OAuth callback and htpasswd form sign-in; made-up tickets signed with another secret / unsigned / zero-signed / value only / legacy-shaped, own ticket with broken signature, own ticket two lifetimes old, own valid ticket live / signed out): the ticket issued and the store key written are never the client's, nothing the attacker holds decodes to the victim; " +
+		"entropy faults (Redis store, sequential: crypto/rand.Reader failing every 16-/12-byte read or read #1..4, whole or after half of the bytes, around single htpasswd form sign-ins): a login fails cleanly or yields a non-degenerate, unshared ticket whose store entry does not open with an all-zero key; " +
 		"two-time-pad recovery on consecutive versions; AES-GCM opening of every store entry with every 16/24/32-byte window of its own key name (raw, hex-decoded) and leading value bytes")
 	run.Assume("the fake IdP's books (who logged in, which tokens were issued) are the reference for 'the session that was issued'",
 		"lifetimes are hours, runs are minutes: no verdict depends on a time threshold", "cryptographic strength is not judged, only the presence of the mechanisms (a fixed IV or a weak key leave no recognisable plaintext)")
@@ -1565,7 +1566,8 @@ func TestVerif_C02(t *testing.T) {
 		run.Counter("issued_without_lifetime_cookie") == 0 || run.Counter("issued_without_lifetime_redis") == 0 || run.Counter("store_version_pairs_xored") == 0 ||
 		run.Counter("ivs_observed_cookie_secret") < 20 || run.Counter("store_derived_keys_tried") == 0 || run.Counter("concurrently_issued_credentials_checked") < 1000 ||
 		run.Counter("cookie_cipher_known_answer_checks") < 20 || run.Counter("sessions_saved_twice_unchanged") == 0 || run.Counter("logins_with_planted_cookie") < 40 ||
-		run.Counter("attacker_cookies_presented_after_victim_login") < 40) {
+		run.Counter("attacker_cookies_presented_after_victim_login") < 40 || run.Counter("entropy_faults_fired") == 0 || run.Counter("entropy_fault_logins_refused") == 0 ||
+		run.Counter("entropy_fault_logins_completed") == 0) {
 		fmt.Printf("INCONCLUSIVE property=C02 reason=a part of the oracle never fired (accepted-identical=%d, must-reject=%d, store values=%d, expire=0 groups cookie/redis=%d/%d, version pairs=%d, IVs=%d, store-derived keys=%d)\n",
 			run.Counter("accepted_identical"), run.Counter("must_reject_variants"), run.Counter("opacity_values_store-value"), run.Counter("issued_without_lifetime_cookie"), run.Counter("issued_without_lifetime_redis"),
 			run.Counter("store_version_pairs_xored"), run.Counter("ivs_observed_cookie_secret"), run.Counter("store_derived_keys_tried"))
